@@ -1,4 +1,5 @@
 import Driver.SeqDrv
+import Driver.SmallDrv
 open Lean Drv
 
 def handle (line : String) : String :=
@@ -7,6 +8,8 @@ def handle (line : String) : String :=
   | .ok j =>
     match str j "k" with
     | "seq" => seqLine j
+    | "stack" => stackLine j
+    | "iter" => iterLine j
     | k => verdict false true "bad-kind" k
 
 partial def loop (h : IO.FS.Stream) (out : IO.FS.Stream) : IO Unit := do
